@@ -25,7 +25,7 @@ ASSUMPTIONS = [
     'ShellComp::Raw strings and &\'static constants are supplied by the developer, not by the user at completion time',
     'shell semantics: text inside single quotes with \' -> \'\\\'\' is data for bash and zsh',
 ]
-FLOORS = {'T1.typed-quoting': 19, 'T2.newline': 23, 'T3.accumulator': 6, 'T4.coverage': 12, 'T5.escaper': 5, 'T6.dispatch': 5, 'T7.stubs': 8}
+FLOORS = {'T1.typed-quoting': 19, 'T2.newline': 23, 'T3.accumulator': 6, 'T4.coverage': 12, 'T5.escaper': 5, 'T6.dispatch': 5, 'T7.stubs': 8, 'T8.line-protocol': 2}
 
 RENDERERS = ['render_zsh', 'render_bash', 'render_fish', 'render_simple']
 INT_TYPES = {'usize', 'u8', 'u16', 'u32', 'u64', 'u128', 'isize', 'i8', 'i16', 'i32', 'i64', 'i128'}
@@ -62,6 +62,32 @@ def run(ctx):
         ctx.guard(t5, ctx, cfg, fs)
         ctx.guard(t6, ctx, cfg, fs)
         ctx.guard(t7, ctx, cfg, fs)
+        ctx.guard(t8, ctx, cfg, fs, bodies)
+
+LINE_ORIENTED = ('render_fish', 'render_simple')
+
+def t8(ctx, cfg, fs, bodies):
+    """fish and elvish read the answer line by line: one line = one candidate (value TAB description).  A description
+    can come from a user closure and contain line breaks, so what is written after the TAB must be cut at the
+    first line break (typed-quoting renderers wrap the text in Shell(..) instead and are not line oriented)."""
+    CUT = DEFAULT_THROUGH + [r'Option::<.*>::(unwrap_or|unwrap_or_default|as_deref)$', r'as std::ops::Try>::branch$']
+    for r in LINE_ORIENTED:
+        n = 0
+        for body in fs.family(bodies[r]):
+            for s in fmt_sites(body):
+                for (meth, T, op, abb) in s.args:
+                    rs = provenance(body, op, abb, 'term', through=CUT)
+                    cut = [q for q in rs if q.kind == 'call' and q.call.is_(r'Iterator>?::next$') and re.search(r'str::(Split|Lines|SplitTerminator|SplitN)', q.call.full)]
+                    raw_help = [q for q in rs if q not in cut and 'help' in q.path]
+                    helpish = raw_help or any(q.kind == 'call' and 'help' in str([z.path for z in provenance(body, q.call.args[0], q.call.bb, 'term', through=CUT + [r'str::<impl str>::(split|lines|splitn|split_terminator)'])]) for q in cut)
+                    if not helpish:
+                        continue
+                    n += 1
+                    ctx.ob('T8.line-protocol', '%s:description-first-line-only' % r, bool(cut) and not raw_help,
+                           '%s writes the description into the line template %r %s' % (r, s.text(), 'after cutting it at the first line break' if (cut and not raw_help) else 'as it is: a line break inside it starts a new candidate line'),
+                           where=s.where(), cfg=cfg)
+        if n == 0:
+            ctx.ob('T8.line-protocol', '%s:description-first-line-only' % r, True, '%s writes no description' % r, cfg=cfg, nontrivial=False)
 
 def arg_descr(body, op, bb):
     rs = provenance(body, op, bb, 'term')
